@@ -640,6 +640,12 @@ Proof.
   - destruct i as [|i], j as [|j]; cbn; try reflexivity. apply IH.
 Qed.
 
+(* GEN: the state of a connection is created per instance and the server hands in nothing shared, so an
+   event of the product system is an event of the addressed connection and of nothing else *)
+Lemma step_dir_is_step_at classify handler d i e :
+  step_dir classify handler d i e = step_at classify handler d i e.
+Proof. reflexivity. Qed.
+
 Theorem connections_independent classify handler (evs : list (nat * event)) : forall (d : director) j,
   nth_error (run_director classify handler d evs) j =
   option_map (fun c => run classify handler c (events_for j evs)) (nth_error d j).
@@ -648,9 +654,29 @@ Proof.
   - cbn. destruct (nth_error d j); reflexivity.
   - cbn [run_director fold_left fst snd events_for].
     change (fold_left _ evs ?x) with (run_director classify handler x evs).
-    rewrite IH, step_at_nth. destruct (Nat.eqb i j).
+    rewrite IH, step_dir_is_step_at, step_at_nth. destruct (Nat.eqb i j).
     + destruct (nth_error d j); reflexivity.
     + reflexivity.
+Qed.
+
+Lemma events_for_app j a b : events_for j (a ++ b) = events_for j a ++ events_for j b.
+Proof.
+  induction a as [|[i e] a IH]; cbn [app events_for]; [reflexivity|].
+  destruct (Nat.eqb i j); cbn [app]; rewrite IH; reflexivity.
+Qed.
+
+(* non-interference over the product system: whatever happens on OTHER connections, anywhere in the
+   history, leaves connection a exactly as it is without those events *)
+Theorem other_connections_do_not_interfere classify handler (d : director) (evs1 evs2 noise : list (nat * event)) a :
+  Forall (fun ie => fst ie <> a) noise ->
+  nth_error (run_director classify handler d (evs1 ++ noise ++ evs2)) a =
+  nth_error (run_director classify handler d (evs1 ++ evs2)) a.
+Proof.
+  intros H. rewrite !connections_independent, !events_for_app.
+  assert (E : events_for a noise = []).
+  { induction noise as [|[i e] n IH]; [reflexivity|]. inversion H; subst. cbn [events_for fst] in *.
+    destruct (Nat.eqb_spec i a) as [->|_]; [congruence|]. apply IH. assumption. }
+  rewrite E. reflexivity.
 Qed.
 
 (* ---------- empty body ---------- *)
